@@ -36,9 +36,9 @@ def pairs(vals):
         for b in vals:
             if admissible(a, b):
                 yield a, b
-    # narrow domains: the span is only 1.3e-3 / 4.7e-5 of the magnitude (tick steps far below the end points)
+    # narrow domains: the span is only 1.3e-3 / 4.7e-5 / 2.3e-6 of the magnitude (tick steps far below the end points)
     for v in vals:
-        for rel in (1.3e-3, 4.7e-5):
+        for rel in (1.3e-3, 4.7e-5, 2.3e-6):
             w = v * (1 + rel)
             for a, b in ((v, w), (w, v)):
                 if admissible(a, b):
